@@ -533,7 +533,8 @@ def search(payload):
                        ("is_digit_p", str.isdigit), ("is_identifier_p", str.isidentifier), ("is_lower_p", str.islower),
                        ("is_numeric_p", str.isnumeric), ("is_printable_p", str.isprintable), ("is_space_p", str.isspace),
                        ("is_title_p", str.istitle), ("is_upper_p", str.isupper)):
-        for sx in ("", "a", "A", "Ab", "a1", "12", " ", "\t", "é", "a b", "Hello World", "_x", "½"):
+        import keyword as _kw
+        for sx in ["", "a", "A", "Ab", "a1", "12", " ", "\t", "é", "a b", "Hello World", "_x", "½", "ǅ", "ß", "İ", "٣", "²", "x\u0301", "\u2003", "None", "True"] + list(_kw.kwlist) + list(getattr(_kw, "softkwlist", [])):
             n += 1
             if getattr(STR, name)(sx) != meth(sx):
                 fails.append({"p": name, "x": repr(sx), "implementation": getattr(STR, name)(sx), "reference": meth(sx)})
